@@ -217,6 +217,27 @@ Definition pl_left_join (sl sr0 : pstate) (on : expr) : pstate :=
      p_ns := ns; p_select := p_select sl ++ p_select sr0; p_part := []; p_ctr := p_ctr sr3;
      p_keys := p_keys sl2 ++ p_keys sr3 |}.
 
+(* full join: rows of either frame without partner appear once *)
+Definition pl_full_join (sl sr0 : pstate) (on : expr) : pstate :=
+  let M := (p_ctr sl + List.length (p_select sr0))%nat in
+  let sr := shift_names M sr0 in
+  let news1 := map (fun u => uname (pname (p_ns sl) u)) (p_select sl) in
+  let sr1 := rename_over news1 (p_keys sr) sr in
+  let news2 := map (fun u => uname (pname (p_ns sr1) u)) (p_select sr1) in
+  let sl2 := rename_over news2 (p_keys sl) sl in
+  let news3 := user_names (p_keys sl2) in
+  let sr3 := rename_over news3 (p_keys sr1) sr1 in
+  let ns := p_ns sl2 ++ p_ns sr3 in
+  let holds := fun fl fr => value_eqb (eval [] (O, view ns (fl ++ fr)) on) (VBool true) in
+  {| p_rows := flat_map (fun fl =>
+                  match filter (holds fl) (p_rows sr3) with
+                  | [] => [fl]
+                  | ms => map (fun fr => fl ++ fr) ms
+                  end) (p_rows sl2)
+               ++ filter (fun fr => negb (existsb (fun fl => holds fl fr) (p_rows sl2))) (p_rows sr3);
+     p_ns := ns; p_select := p_select sl ++ p_select sr0; p_part := []; p_ctr := p_ctr sr3;
+     p_keys := p_keys sl2 ++ p_keys sr3 |}.
+
 Fixpoint pl_compile (d : db) (a : ast) : option pstate :=
   match a with
   | Source t cols =>
@@ -248,6 +269,11 @@ Fixpoint pl_compile (d : db) (a : ast) : option pstate :=
   | Join l r on JLeft =>
       match pl_compile d l, pl_compile d r with
       | Some sl, Some sr => Some (pl_left_join sl sr on)
+      | _, _ => None
+      end
+  | Join l r on JFull =>
+      match pl_compile d l, pl_compile d r with
+      | Some sl, Some sr => Some (pl_full_join sl sr on)
       | _, _ => None
       end
   | _ => None
@@ -311,7 +337,7 @@ Fixpoint pflat_ok (d : db) (a : ast) : bool :=
              && forallb (fun u => negb (user_in (pname (p_ns st) u) (map (fun dd => fst (fst dd)) defs))) (p_part st)
          | None => false
          end
-  | Join l r on JInner | Join l r on JLeft =>
+  | Join l r on _ =>
       (* the operands share no column identity, the visible column names differ (the join verb suffixes them),
          the condition mentions columns in scope *)
       pflat_ok d l && pflat_ok d r
